@@ -6,17 +6,21 @@ OUT="$1"; PFX="$2"; SID="$3"
 WT=/tmp/wt/confirm
 export CARGO_NET_OFFLINE=true RUST_BACKTRACE=0
 [ -d "$WT" ] || git -C /repo worktree add -q --detach "$WT" HEAD
-cd "$WT" && git checkout -q --detach $(git -C /repo rev-parse HEAD) && git reset -q --hard && rm -f tests/seed_demo.rs
+cd "$WT" && git checkout -q --detach $(git -C /repo rev-parse HEAD) && git reset -q --hard && rm -f tests/seed_demo.rs tests/seed_demo.sh
 mkdir -p tests
 DEMO="$OUT/$PFX.demo.rs"
-[ -f "$DEMO" ] || { echo "RESULT $SID no-rs-demo"; exit 1; }
-cp "$DEMO" tests/seed_demo.rs
+SH=0
+if [ ! -f "$DEMO" ]; then DEMO="$OUT/$PFX.demo.sh"; SH=1; fi
+[ -f "$DEMO" ] || { echo "RESULT $SID no-demo"; exit 1; }
+rundemo() {
+  if [ "$SH" = 1 ]; then cargo build --offline >/dev/null 2>&1; cp "$DEMO" tests/seed_demo.sh; timeout 600 sh tests/seed_demo.sh; else cp "$DEMO" tests/seed_demo.rs; timeout 1200 cargo test --offline --test seed_demo; fi
+}
 echo "--- pristine demo"
-timeout 1200 cargo test --offline --test seed_demo >/tmp/wt/confirm.$SID.pristine.log 2>&1; P=$?
+rundemo >/tmp/wt/confirm.$SID.pristine.log 2>&1; P=$?
 git apply --3way "$OUT/$PFX.patch.diff" 2>/dev/null || git apply "$OUT/$PFX.patch.diff" || { echo "RESULT $SID patch-does-not-apply"; exit 1; }
 echo "--- mutated demo"
-timeout 1200 cargo test --offline --test seed_demo >/tmp/wt/confirm.$SID.mutated.log 2>&1; M=$?
-rm -f tests/seed_demo.rs
+rundemo >/tmp/wt/confirm.$SID.mutated.log 2>&1; M=$?
+rm -f tests/seed_demo.rs tests/seed_demo.sh
 echo "--- mutated baseline"
 timeout 1200 cargo test --workspace --no-fail-fast --offline >/tmp/wt/confirm.$SID.base.log 2>&1; B=$?
 NPASS=$(grep -E "^test result: ok. 47 passed" /tmp/wt/confirm.$SID.base.log | wc -l)
@@ -25,7 +29,7 @@ git reset -q --hard
 echo "RESULT $SID pristine_demo_rc=$P mutated_demo_rc=$M baseline_rc=$B baseline47=$NPASS"
 if [ "$P" = 0 ] && [ "$M" != 0 ] && [ "$B" = 0 ] && [ "$NPASS" = 1 ]; then
   D=/verif/seeded/$SID; mkdir -p "$D"
-  cp /tmp/wt/confirm.$SID.patch "$D/patch.diff"; cp "$DEMO" "$D/demo.rs"
+  cp /tmp/wt/confirm.$SID.patch "$D/patch.diff"; if [ "$SH" = 1 ]; then cp "$DEMO" "$D/demo.sh"; else cp "$DEMO" "$D/demo.rs"; fi
   python3 - "$OUT/$PFX.meta.json" "$D/meta.json" "$SID" <<'PY'
 import json,sys
 m=json.load(open(sys.argv[1]))
